@@ -151,9 +151,11 @@ macro_rules! impl_prob_srhs {
                 let lin = r
                     .linear_coefficients()
                     .map(|v| DMatrix::from_column_slice(v.nrows(), 1, v.into_owned().as_slice()));
+                r.problem.model().shared.lock().unwrap().enabled = false;
                 let bf = r
                     .best_fit()
                     .map(|v| DMatrix::from_column_slice(v.nrows(), 1, v.as_slice()));
+                r.problem.model().shared.lock().unwrap().enabled = true;
                 fitout_from(ok, r, lin, bf)
             }
             fn p_fit_stats(
@@ -168,9 +170,11 @@ macro_rules! impl_prob_srhs {
                 let lin = r
                     .linear_coefficients()
                     .map(|v| DMatrix::from_column_slice(v.nrows(), 1, v.into_owned().as_slice()));
+                r.problem.model().shared.lock().unwrap().enabled = false;
                 let bf = r
                     .best_fit()
                     .map(|v| DMatrix::from_column_slice(v.nrows(), 1, v.as_slice()));
+                r.problem.model().shared.lock().unwrap().enabled = true;
                 Some((fitout_from(ok, r, lin, bf), st.map(stats_out)))
             }
         }
@@ -197,7 +201,9 @@ macro_rules! impl_prob_mrhs {
                     Err(r) => (false, r),
                 };
                 let lin = r.linear_coefficients().map(|v| v.into_owned());
+                r.problem.model().shared.lock().unwrap().enabled = false;
                 let bf = r.best_fit();
+                r.problem.model().shared.lock().unwrap().enabled = true;
                 fitout_from(ok, r, lin, bf)
             }
             fn p_fit_stats(
